@@ -236,6 +236,33 @@ fn random_pairs<N: ArrayLength>(st: &mut Stats, seed: u64, count: u64) {
     }
 }
 
+/// lengths above 1024 (the crate has size-dependent code elsewhere; Debug/compare must not)
+fn big_cases<N: ArrayLength>(st: &mut Stats, seed: u64) {
+    let n = N::USIZE;
+    st.check_case("C13", "big", "u8/f64/nested", || format!("C13 big N={n} seed={seed}"), true, || {
+        let mut rng = Rng::for_case(seed ^ 0xB16, n as u64);
+        let a = GA::<u8, N>::generate(|_| rng.byte());
+        let mut b = a.clone();
+        let last = n - 1;
+        b[last] = b[last].wrapping_add(1);
+        cmp_pair(&a, &b)?;
+        cmp_pair(&a, &a)?;
+        ord_pair(&a, &b)?;
+        hash_one(&a)?;
+        debug_one(&a)?;
+        let f = GA::<f64, N>::generate(|i| if i == last { f64::NAN } else { i as f64 });
+        cmp_pair(&f, &f)?;
+        debug_one(&f)?;
+        // a long array as the element of a short one
+        let nested: GA<GA<u8, N>, U2> = GA::from_array([a.clone(), b.clone()]);
+        debug_one(&nested)?;
+        hash_one(&nested)?;
+        let nested2: GA<GA<u8, N>, U2> = GA::from_array([b, a]);
+        cmp_pair(&nested, &nested2)?;
+        ord_pair(&nested, &nested2)
+    });
+}
+
 macro_rules! exh_lens {
     ($st:expr, $args:expr, [$($v:literal),*]) => { $( if $v <= $args.maxn {
         type N = U<$v>;
@@ -266,6 +293,15 @@ fn main() {
         let cnt = args.budget.unwrap_or(if args.thorough() { 3000 } else { 150 });
         rnd_lens!(&mut st, args, cnt, [0, 1, 5, 8, 16, 17, 100]);
         rnd_lens!(&mut st, args, cnt / 10 + 1, [1024]);
+    }
+    if args.part_on("big") && args.maxn >= 4096 {
+        use generic_array::typenum::{Sum, U1, U1024, U2047, U2048, U4096};
+        big_cases::<U<1023>>(&mut st, args.seed);
+        big_cases::<U<1024>>(&mut st, args.seed);
+        big_cases::<Sum<U1024, U1>>(&mut st, args.seed);
+        big_cases::<U2047>(&mut st, args.seed);
+        big_cases::<U2048>(&mut st, args.seed);
+        big_cases::<U4096>(&mut st, args.seed);
     }
     st.finish();
 }
